@@ -121,6 +121,9 @@ pub struct Spec {
     /// tick of the simulated monotonic clock per read (slow or stalled node); 0 = 1 µs
     #[serde(default)]
     pub mono_tick_ns: i64,
+    /// configuration fault: (environment variable named in the library's source, value) set during the run
+    #[serde(default)]
+    pub env_fault: Option<(usize, usize)>,
 }
 
 pub struct C16;
@@ -242,8 +245,8 @@ fn apply_text_muts(occs: &mut Vec<Occ>, muts: &[TextMut], crlf: &mut bool) {
             }
             TextMut::Repeat { times } => {
                 let base = occs.clone();
-                for _ in 1..(*times).clamp(1, 16) {
-                    if occs.len() + base.len() > 600 {
+                for _ in 1..(*times).clamp(1, 64) {
+                    if occs.len() + base.len() > 1400 {
                         break;
                     }
                     occs.extend(base.iter().cloned());
@@ -912,7 +915,8 @@ impl Engine for C16 {
         let mut text_muts = vec![];
         // one run in twelve works on a long text
         if w.chance(1, 12) {
-            text_muts.push(TextMut::Repeat { times: 3 + w.below(12) });
+            // mostly a few hundred fields; sometimes more than a thousand (tens of kilobytes)
+            text_muts.push(TextMut::Repeat { times: if w.chance(1, 4) { 30 + w.below(34) } else { 3 + w.below(12) } });
         }
         // one run in eight carries non-ASCII content (1 … 40 two-byte characters, sometimes in two fields)
         if w.chance(1, 8) {
@@ -993,6 +997,7 @@ impl Engine for C16 {
             script,
             drain: true,
             mono_tick_ns: *s.pick(&[1_000i64, 1_000, 1_000, 1_000_000, 20_000_000, 300_000_000, 10_000_000_000]),
+            env_fault: if w.chance(1, 4) { Some((w.below(1000), w.below(1000))) } else { None },
         }
     }
 
@@ -1017,6 +1022,10 @@ impl Engine for C16 {
         let ctx = clock.ctx(spec.e_w);
         let ctx2 = ctx.clone();
         let spec2 = spec.clone();
+        let env_set = apply_env_fault(env, spec.env_fault);
+        if env_set.is_some() {
+            out.count("fault.env.variable_named_in_source_set", 1);
+        }
         let o2 = out.clone();
         let res = on_fresh_thread(move || {
             let mut out = o2;
@@ -1137,6 +1146,7 @@ impl Engine for C16 {
                 (out, None)
             }
         };
+        clear_env_fault(env_set);
         out.absorb_ctx(&ctx);
         out.sim_ns = 0;
         if spec.mono_tick_ns >= 20_000_000 && out.counters.get("seam.monotonic_clock_reads").copied().unwrap_or(0) > 0 {
@@ -1163,6 +1173,11 @@ impl Engine for C16 {
         if spec.mono_tick_ns > 1_000 {
             let mut s = spec.clone();
             s.mono_tick_ns = 0;
+            v.push(s);
+        }
+        if spec.env_fault.is_some() {
+            let mut s = spec.clone();
+            s.env_fault = None;
             v.push(s);
         }
         // halves, then single steps
